@@ -507,6 +507,59 @@ func init() {
 		},
 		outside: "leaves that are themselves []any; custom (un)marshalers (C14); Conditions without operator (C06/C16 inputs); capacities (Unmarshal does not carry them)",
 	})
+
+	register(&property{
+		id: "C20",
+		gen: func(tier string, seed int) []symx.CaseSpec {
+			var out []symx.CaseSpec
+			// the repository's own test shape first: chains of single children
+			out = append(out, cs("VH_C20", 3, 2, 0, 1, 1, 0, 3, 0, 1, 1, 0, 3, 0, 1, 1, 0, 0))
+			out = append(out, cs("VH_C20", 3, 2, 0, 1, 1, 0, 5, 0, 1, 1, 0, 2))
+			out = append(out, cs("VH_C20", 2, 2, 3, 1, 1, 0, 3, 0, 1, 0, 0, 0))
+			n := q(tier, 120, 1500)
+			r := uint64(seed)*2654435761 + 20
+			for i := 0; i < n; i++ {
+				var digits []int
+				for k := 0; k < 48; k++ {
+					r = r*6364136223846793005 + 1442695040888963407
+					digits = append(digits, int((r>>33)%360))
+				}
+				depth := 2 + i%3
+				if tier != "thorough" && depth > 3 {
+					depth = 3
+				}
+				out = append(out, cs("VH_C20", append([]int{depth, 1 + i%3}, digits...)...))
+			}
+			return out
+		},
+		boundsText: map[string]string{
+			"quick":    "3 hand-picked + 120 seeded trees of depth<=3, width<=3 (single-child chains favoured) over AND/OR/NOT/LIST with text/int leaves, Conditions holding text or Stacks, empty stacks, mutex-enabled nodes; the parenthetical bit of every Stack and Condition and the index-option bits of every Stack are solver variables",
+			"thorough": "3 hand-picked + 1500 seeded trees of depth<=4",
+		},
+		outside: "trees outside the sampled shapes; aliases as nodes (C12)",
+		assumptions: []string{"deadlock = sync.Mutex.Lock on a mutex the single engine thread already holds (engine lock table)"},
+	})
+
+	register(&property{
+		id: "C19",
+		gen: func(tier string, seed int) []symx.CaseSpec {
+			var out []symx.CaseSpec
+			maxN := q(tier, 6, 9)
+			for n := 0; n <= maxN; n++ {
+				out = append(out, cs("VH_C19", n, 0, 0), cs("VH_C19", n, 0, 1))
+				if n <= q(tier, 4, 6) {
+					out = append(out, cs("VH_C19", n, 1, 1), cs("VH_C19", n, 2, 0))
+				}
+			}
+			return out
+		},
+		boundsText: map[string]string{
+			"quick":    "every nil/non-nil pattern of length 0..6 (flat) and 0..4 (nested in a Stack / as a Condition's expression); scan limit: absent or any int larger than the longest nil run (solver variable); negative/forward index bits symbolic",
+			"thorough": "every pattern of length 0..9 (flat) and 0..6 (nested)",
+		},
+		outside: "patterns longer than the bound; limits not exceeding the longest nil run (outside the statement's precondition)",
+		assumptions: []string{"known findings are keyed by the nil pattern (a letter per element, '.' per nil) and the failing assertion"},
+	})
 }
 
 var _ = fmt.Sprint
